@@ -313,7 +313,10 @@ def c_cli_grammar_input(ctx, w):
             return ("dest.rcg and dest.lex", "%s: %s" % (type(e).__name__, e))
     if w["gramtype"] == "leftright":
         try:
-            got = L.unbinarize({f: {l: {L.VERT: c}} for (f, l), c in _group(got).items()}) if got else {}
+            bg = {}
+            for (f, l), c in got.items():
+                bg.setdefault(f, {})[l] = {L.VERT: c}
+            got = L.unbinarize(bg) if bg else {}
         except L.LinError as e:
             return ("a binarized version of the source grammar", str(e))
     if want != got or wlex != glex:
@@ -321,10 +324,6 @@ def c_cli_grammar_input(ctx, w):
                 {"rules": len(got), "rule_mass": sum(got.values()), "words": len(glex),
                  "difference": [L.show(x) for x in L.diff(want, got)] if got else "empty grammar"})
     return None
-
-
-def _group(rules):
-    return rules
 
 
 def c_strip_fanout(ctx, s):
